@@ -239,6 +239,12 @@ fn compile_filters(sync_spec: &SyncSpec) -> Result<Filters, String> {
     Ok(Filters { regex_set, kinds })
 }
 
+/// [verification hook] Gives the harness access to filter compilation.
+#[cfg(rjrssync_verif)]
+pub fn verif_compile_filters(filters: &[String]) -> Result<Filters, String> {
+    compile_filters(&SyncSpec { filters: filters.to_vec(), ..Default::default() })
+}
+
 fn sync_impl(mut ctx: SyncContext) -> Result<(), String> {
     profile_this!();
 
